@@ -403,7 +403,7 @@ pub fn san_spellings(b: &Board, ms: &[ChessMove], m: ChessMove) -> Vec<String> {
 /// Well-formed SAN that the documented grammar must reject in `b` (tag `!`):
 /// (a) under-disambiguated spellings, (b) piece+destination that no legal move of that piece type
 /// reaches (pinned piece, move leaving the king in check, blocked slide, empty piece type).
-pub fn san_rejections(b: &Board, ms: &[ChessMove]) -> Vec<String> {
+pub fn san_rejections(b: &Board, ms: &[ChessMove]) -> (Vec<String>, Vec<String>) {
     let mut out = Vec::new();
     // (a) ambiguity: group legal moves by (piece, dest, promotion)
     for (i, m) in ms.iter().enumerate() {
@@ -453,6 +453,8 @@ pub fn san_rejections(b: &Board, ms: &[ChessMove]) -> Vec<String> {
     }
     out.sort();
     out.dedup();
+    let ambiguous = out;
+    let mut out = Vec::new();
     // (b) piece type + destination that no legal move of that type reaches
     let me = b.side_to_move();
     for p in [Piece::Knight, Piece::Bishop, Piece::Rook, Piece::Queen, Piece::King].iter() {
@@ -484,7 +486,7 @@ pub fn san_rejections(b: &Board, ms: &[ChessMove]) -> Vec<String> {
             out.push(format!("{}{}{}{}", piece_letter(*p), x, file_ch(d), rank_ch(d)));
         }
     }
-    out
+    (ambiguous, out)
 }
 
 /// Lenient / unspecified variations of a correct spelling (tag `?`).
